@@ -9,7 +9,9 @@ from . import c09
 ID = "C10"
 RULE = ("Same RuleBasedStateMachine histories as C09 (pool of expressions sharing sub-expression objects, persistent "
         "derivative objects, expressions returned by as_expression()/_normalize() re-entering the pool, failing calls) "
-        "plus Point(**d)-then-mutate-d and probe evaluations.  Every pooled object gets a snapshot at creation (canonical "
+        "plus Point(**d)-then-mutate-d and probe evaluations; and, exhaustively over the small-scope skeletons that C11 enumerates, "
+        "every sub-expression object is snapshot, the simplifying/differentiating operations are run twice, and no pre-existing or "
+        "previously returned object may have changed.  Every pooled object gets a snapshot at creation (canonical "
         "model, repr, hash of a separately built fresh copy).  Invariant after EVERY operation, for EVERY pooled object: "
         "its structure (walked through _inner/_left/_right/_inners/.n/.base/.name/.value) equals the snapshot, repr and "
         "str equal the snapshot, it == a fresh copy (both directions) with equal hash; points and derivative objects "
@@ -50,6 +52,66 @@ class C10Base(c09.Machine):
                                 {"history": self.w.history_text(14), "pool": len(self.w.models), "features": sorted(self.w.features)})
 
 
+def immutability(stats, m, sub="skeleton"):
+    """Small-scope exhaustive companion of the state machine: build m, snapshot EVERY sub-expression object, run the
+    simplifying / differentiating operations (each twice: the second pass meets memo flags set by the first), and
+    verify that no pre-existing object - nor any expression returned earlier - changed."""
+    from .c14 import walk_objects
+    stats.case()
+    e = build(m)
+    pairs = []
+    walk_objects(e, m, pairs, set())
+    snap = [(o, M.canon(sm), repr(o)) for o, sm in pairs]
+    returned = []
+    P = lib.Point(x=2, y=3)
+
+    def keep(out):
+        if out.kind == lib.EXPR:
+            returned.append((out.value, M.canon(to_model(out.value)), repr(out.value)))
+    case = make_case(sub, m, None)
+    for rnd in range(2):
+        for var in ("x", "y"):
+            keep(lib.call(lambda: lib.Partial(e, var).as_expression()))
+            lib.call(lambda: lib.Partial(e, var, compute_early=True).at(P))
+            keep(lib.call(lambda: lib.Differential(e, compute_early=True).component(var).as_expression()))
+        keep(lib.call(lambda: e._normalize()))
+        lib.call(lambda: e.at(P))
+        lib.call(lambda: lib.LocatedDifferential(e, P))
+        for o, canon0, repr0 in snap + returned:
+            now = to_model(o)
+            if M.canon(now) != canon0 or repr(o) != repr0:
+                raise violation(ID, sub, f"operand-changed:{now[0]}", case,
+                                f"inside {M.text(m)[:200]}: the object that was {repr0[:160]} is now {repr(o)[:160]} after "
+                                f"as_expression / early derivatives / _normalize / evaluation (round {rnd + 1})")
+    f = fresh(m)
+    if not (e == f) or hash(e) != hash(f):
+        raise violation(ID, sub, f"root-neq-fresh:{m[0]}", case, f"{M.text(m)[:200]} no longer equals a fresh copy")
+    stats.count("objects-checked", len(snap) + len(returned))
+    if len(snap) >= 4:
+        stats.nontrivial_case(M.digest(M.canon(m)), {"expr": M.text(m)[:200], "objects": len(snap), "returned": len(returned)})
+
+
+def run_skeletons(tier):
+    from . import c11
+
+    def run(stats, seed, shard, nshards):
+        for name, sliceable, gen in c11.skeleton_blocks():
+            i = 0
+            for m in gen():
+                i += 1
+                if i % nshards != shard:
+                    continue
+                if sliceable and tier == "quick" and (i // nshards) % 16 != (seed + 9) % 16:
+                    continue
+                if tier == "quick":
+                    div = {"chains": 8, "towers": 4, "ternary": 3}.get(name, 1)
+                    if (i // nshards) % div != seed % div:
+                        continue
+                stats.count("block:" + name)
+                immutability(stats, m)
+    return run
+
+
 def make_machine(stats):
     class C10Machine(C10Base):
         pass
@@ -59,11 +121,18 @@ def make_machine(stats):
 
 def parts(tier):
     n = 1500 if tier == "quick" else 30000
-    return [machine_part("histories", make_machine, n, steps=30),
+    return [run_part("skeletons", run_skeletons(tier)),
+            machine_part("histories", make_machine, n, steps=30),
             machine_part("long-histories", make_machine, max(16, n // 10), steps=80)]
 
 
+EXHAUSTIVE_PARTS = ["skeletons (the enumeration of C11; quick tier: a VERIF_SEED-chosen 1/16 of binary parents, 1/8 of unary chains, 1/4 of towers, 1/3 of 3-ary nodes, all unary parents; thorough tier: all)"]
+
+
 def replay(case):
+    if case.get("sub") == "skeleton":
+        immutability(Stats(), case_model(case))
+        return
     try:
         H.replay_history("c10", case["history"])
     except H.Mismatch as mm:
